@@ -7,9 +7,11 @@
        earlier and later snapshot, from the initial statuses to every snapshot, and from every snapshot to the
        final statuses.  (fwd / FwdL / ssn / snaps: Proofs/Forward.v, Proofs/ForwardCount.v.)
    Seat bounds, QPQ transitions and crashed runs: states-scope correspondence + transition oracle (_partial). *)
-From Coq Require Import ZArith List Bool PArith Sorted.
+From Coq Require Import ZArith List Bool PArith Sorted String.
+Import ListNotations.
 From Droop Require Import Model.Arith Model.Prelude Model.State Model.Prims Model.Election
   Proofs.CmdMeta Proofs.Hist Proofs.HistCount Proofs.Forward Proofs.ForwardCount.
+Open Scope string_scope.
 Open Scope Z_scope.
 
 (* [actions s] is newest first; [newer a b] := a_round b <= a_round a *)
@@ -36,3 +38,19 @@ Example C09_forward_relation :
   ~ fwd (Elected, Some false) (Elected, Some true) /\ ~ fwd (Elected, Some false) (Hopeful, Some false) /\
   ~ fwd (Withdrawn, None) (Elected, Some false) /\ ~ fwd (Elected, None) (Defeated, None).
 Proof. cbn. repeat split; auto; try (intros H; exact H); intros H; discriminate (H eq_refl). Qed.
+
+(* "seats are never over-committed" is FALSE for meek under guarded arithmetic with guard > 0 (open findings K13/K14):
+   the keep-factor update rounds down, a ballot multiplier of 787305 multiplies the truncation, the first winner ends
+   up holding less than the quota and two more hopefuls reach the collapsed quota in one iteration: four candidates are
+   elected for three seats and only postCheck notices.  The model agrees with the code on this input (corpus K13). *)
+Definition k13_profile : profile :=
+  mkProfile 3 788313
+    [mkPcand 1 1 4 "c1" "1" false false; mkPcand 2 2 1 "c2" "2" false false; mkPcand 3 3 2 "c3" "3" false false;
+     mkPcand 4 4 5 "c4" "4" false false; mkPcand 5 5 3 "c5" "5" false false]
+    [(7, [2; 1]); (1, [1; 2; 5; 3]); (787305, [2]); (999, [1]); (1, [4; 5; 1])] [].
+Example C09_meek_guarded_overelects_refuted :
+  match run_count (Guarded 4 2 4 0) (mkConfig "meek" MMeek 3 788313 false false false false 2) (2 ^ 20)%positive RMeek k13_profile with
+  | Done s false => nlen (electeds _ s) = 4
+  | _ => False
+  end.
+Proof. vm_compute. reflexivity. Qed.
